@@ -146,138 +146,195 @@ func runC11(w *core.WorkerCtx, idx int) *core.CaseResult {
 	}
 	res.Sig = fmt.Sprintf("%x", core.HashString(text+fmt.Sprint(selfMon, len(assign))))
 	res.Nontrivial = true
-	res.Execs = 1
+	var curText string
+	var curGen []byte
 	witness := func() {
 		if res.Witness == nil {
-			res.Witness = map[string]interface{}{"original": text, "generated": string(genBytes), "self_monitor": selfMon}
+			res.Witness = map[string]interface{}{"original": curText, "generated": string(curGen), "self_monitor": selfMon}
 		}
 	}
-	gen, err := config.Load(string(genBytes), false, log.NewNopLogger())
-	if err != nil {
-		res.Violate("C11/generated-invalid", "Prometheus rejects the generated file: %v", err)
-		witness()
-		return res
-	}
-	// jobs: same names, same order, plus the optional self-monitoring job
-	var on, gn []string
-	for _, j := range orig.ScrapeConfigs {
-		on = append(on, j.JobName)
-	}
-	for _, j := range gen.ScrapeConfigs {
-		gn = append(gn, j.JobName)
-	}
-	expect := append([]string{}, on...)
-	if selfMon {
-		expect = append(expect, "prometheus_shards")
-	}
-	if fmt.Sprint(expect) != fmt.Sprint(gn) {
-		res.Violate("C11/jobs-differ", "jobs in the generated file %v, expected %v", gn, expect)
-		witness()
-	}
-	// per job
-	for i, oj := range orig.ScrapeConfigs {
-		if i >= len(gen.ScrapeConfigs) || gen.ScrapeConfigs[i].JobName != oj.JobName {
-			continue
+	compare := func(phase, text string, orig *config.Config, genBytes []byte, want map[string]map[uint64]bool) {
+		curText, curGen = text, genBytes
+		res.Execs++
+		gen, err := config.Load(string(genBytes), false, log.NewNopLogger())
+		if err != nil {
+			res.Violate("C11/generated-invalid", "%s: Prometheus rejects the generated file: %v", phase, err)
+			witness()
+			return
 		}
-		gj := gen.ScrapeConfigs[i]
-		res.AddStat("jobs_compared", 1)
-		// discovery: only static entries, one per assigned target
-		got := map[uint64]bool{}
-		nonStatic := false
-		for _, sd := range gj.ServiceDiscoveryConfigs {
-			if sd.Name() != "static" {
-				nonStatic = true
+		// jobs: same names, same order, plus the optional self-monitoring job
+		var on, gn []string
+		for _, j := range orig.ScrapeConfigs {
+			on = append(on, j.JobName)
+		}
+		for _, j := range gen.ScrapeConfigs {
+			gn = append(gn, j.JobName)
+		}
+		expect := append([]string{}, on...)
+		if selfMon {
+			expect = append(expect, "prometheus_shards")
+		}
+		if fmt.Sprint(expect) != fmt.Sprint(gn) {
+			res.Violate("C11/jobs-differ", "jobs in the generated file %v, expected %v", gn, expect)
+			witness()
+		}
+		// per job
+		for i, oj := range orig.ScrapeConfigs {
+			if i >= len(gen.ScrapeConfigs) || gen.ScrapeConfigs[i].JobName != oj.JobName {
+				continue
 			}
-		}
-		for _, g := range staticGroups(gj) {
-			hs := string(g.Labels["__param__hash"])
-			var hv uint64
-			fmt.Sscan(hs, &hv)
-			if got[hv] {
-				res.Violate("C11/job-targets", "job %s: target %d appears twice", oj.JobName, hv)
+			gj := gen.ScrapeConfigs[i]
+			res.AddStat("jobs_compared", 1)
+			// discovery: only static entries, one per assigned target
+			got := map[uint64]bool{}
+			nonStatic := false
+			for _, sd := range gj.ServiceDiscoveryConfigs {
+				if sd.Name() != "static" {
+					nonStatic = true
+				}
 			}
-			got[hv] = true
-			if string(g.Labels["__param__jobName"]) != oj.JobName {
-				res.Violate("C11/job-targets", "job %s: static entry routed to job %q", oj.JobName, g.Labels["__param__jobName"])
+			for _, g := range staticGroups(gj) {
+				hs := string(g.Labels["__param__hash"])
+				var hv uint64
+				fmt.Sscan(hs, &hv)
+				if got[hv] {
+					res.Violate("C11/job-targets", "job %s: target %d appears twice", oj.JobName, hv)
+				}
+				got[hv] = true
+				if string(g.Labels["__param__jobName"]) != oj.JobName {
+					res.Violate("C11/job-targets", "job %s: static entry routed to job %q", oj.JobName, g.Labels["__param__jobName"])
+				}
 			}
-		}
-		if nonStatic {
-			res.Violate("C11/job-discovery-kept", "job %s still has a non-static discovery section", oj.JobName)
-			witness()
-		}
-		if fmt.Sprint(sortedU(got)) != fmt.Sprint(sortedU(want[oj.JobName])) {
-			res.Violate("C11/job-targets", "job %s discovers %v, assigned %v", oj.JobName, sortedU(got), sortedU(want[oj.JobName]))
-			witness()
-		}
-		res.AddStat("static_entries_matched", int64(len(got)))
-		if gj.Scheme != "http" {
-			res.Violate("C11/job-scheme", "job %s scheme %q, expected http", oj.JobName, gj.Scheme)
-		}
-		if gj.HTTPClientConfig.ProxyURL.URL == nil || gj.HTTPClientConfig.ProxyURL.String() != proxyURL {
-			res.Violate("C11/job-proxy", "job %s proxy_url %v, expected %s", oj.JobName, gj.HTTPClientConfig.ProxyURL, proxyURL)
-		}
-		if gj.HTTPClientConfig.BasicAuth != nil {
-			res.Violate("C11/job-basic-auth-kept", "job %s keeps basic_auth", oj.JobName)
-			witness()
-		}
-		if !reflect.DeepEqual(gj.HTTPClientConfig.TLSConfig, config_util.TLSConfig{}) {
-			res.Violate("C11/job-tls-kept", "job %s keeps tls_config %+v", oj.JobName, gj.HTTPClientConfig.TLSConfig)
-			witness()
-		}
-		kept := []struct {
-			name string
-			a, b interface{}
-		}{
-			{"scrape_interval", oj.ScrapeInterval, gj.ScrapeInterval}, {"scrape_timeout", oj.ScrapeTimeout, gj.ScrapeTimeout},
-			{"params", oj.Params, gj.Params}, {"honor_labels", oj.HonorLabels, gj.HonorLabels}, {"honor_timestamps", oj.HonorTimestamps, gj.HonorTimestamps},
-			{"sample_limit", oj.SampleLimit, gj.SampleLimit}, {"target_limit", oj.TargetLimit, gj.TargetLimit}, {"label_limit", oj.LabelLimit, gj.LabelLimit},
-			{"label_name_length_limit", oj.LabelNameLengthLimit, gj.LabelNameLengthLimit}, {"label_value_length_limit", oj.LabelValueLengthLimit, gj.LabelValueLengthLimit},
-			{"body_size_limit", oj.BodySizeLimit, gj.BodySizeLimit}, {"metric_relabel_configs", oj.MetricRelabelConfigs, gj.MetricRelabelConfigs},
-			{"metrics_path", oj.MetricsPath, gj.MetricsPath},
-		}
-		for _, k := range kept {
-			if yamlOf(k.a) != yamlOf(k.b) {
-				res.Violate("C11/job-setting-changed/"+k.name, "job %s: %s is %s in the generated file, %s in the original", oj.JobName, k.name, strings.TrimSpace(yamlOf(k.b)), strings.TrimSpace(yamlOf(k.a)))
+			if nonStatic {
+				res.Violate("C11/job-discovery-kept", "job %s still has a non-static discovery section", oj.JobName)
 				witness()
 			}
-		}
-		// no secret of the scrape job in the file
-		secs := map[string]string{}
-		collectSecrets(reflect.ValueOf(oj.HTTPClientConfig), "", secs, 0)
-		collectSecrets(reflect.ValueOf(oj.ServiceDiscoveryConfigs), "sd", secs, 0) // credentials of the job's discovery clients are job secrets too
-		for p, s := range secs {
-			res.AddStat("job_secrets_scanned", 1)
-			if bytes.Contains(genBytes, []byte(s)) {
-				res.Violate("C11/job-secret-leaked/"+secretKind(p), "job %s: secret %s (%s) appears in the generated file", oj.JobName, s, p)
+			if fmt.Sprint(sortedU(got)) != fmt.Sprint(sortedU(want[oj.JobName])) {
+				res.Violate("C11/job-targets", "job %s discovers %v, assigned %v", oj.JobName, sortedU(got), sortedU(want[oj.JobName]))
 				witness()
 			}
+			res.AddStat("static_entries_matched", int64(len(got)))
+			if gj.Scheme != "http" {
+				res.Violate("C11/job-scheme", "job %s scheme %q, expected http", oj.JobName, gj.Scheme)
+			}
+			if gj.HTTPClientConfig.ProxyURL.URL == nil || gj.HTTPClientConfig.ProxyURL.String() != proxyURL {
+				res.Violate("C11/job-proxy", "job %s proxy_url %v, expected %s", oj.JobName, gj.HTTPClientConfig.ProxyURL, proxyURL)
+			}
+			if gj.HTTPClientConfig.BasicAuth != nil {
+				res.Violate("C11/job-basic-auth-kept", "job %s keeps basic_auth", oj.JobName)
+				witness()
+			}
+			if !reflect.DeepEqual(gj.HTTPClientConfig.TLSConfig, config_util.TLSConfig{}) {
+				res.Violate("C11/job-tls-kept", "job %s keeps tls_config %+v", oj.JobName, gj.HTTPClientConfig.TLSConfig)
+				witness()
+			}
+			kept := []struct {
+				name string
+				a, b interface{}
+			}{
+				{"scrape_interval", oj.ScrapeInterval, gj.ScrapeInterval}, {"scrape_timeout", oj.ScrapeTimeout, gj.ScrapeTimeout},
+				{"params", oj.Params, gj.Params}, {"honor_labels", oj.HonorLabels, gj.HonorLabels}, {"honor_timestamps", oj.HonorTimestamps, gj.HonorTimestamps},
+				{"sample_limit", oj.SampleLimit, gj.SampleLimit}, {"target_limit", oj.TargetLimit, gj.TargetLimit}, {"label_limit", oj.LabelLimit, gj.LabelLimit},
+				{"label_name_length_limit", oj.LabelNameLengthLimit, gj.LabelNameLengthLimit}, {"label_value_length_limit", oj.LabelValueLengthLimit, gj.LabelValueLengthLimit},
+				{"body_size_limit", oj.BodySizeLimit, gj.BodySizeLimit}, {"metric_relabel_configs", oj.MetricRelabelConfigs, gj.MetricRelabelConfigs},
+				{"metrics_path", oj.MetricsPath, gj.MetricsPath},
+			}
+			for _, k := range kept {
+				if yamlOf(k.a) != yamlOf(k.b) {
+					res.Violate("C11/job-setting-changed/"+k.name, "job %s: %s is %s in the generated file, %s in the original", oj.JobName, k.name, strings.TrimSpace(yamlOf(k.b)), strings.TrimSpace(yamlOf(k.a)))
+					witness()
+				}
+			}
+			// no secret of the scrape job in the file
+			secs := map[string]string{}
+			collectSecrets(reflect.ValueOf(oj.HTTPClientConfig), "", secs, 0)
+			collectSecrets(reflect.ValueOf(oj.ServiceDiscoveryConfigs), "sd", secs, 0) // credentials of the job's discovery clients are job secrets too
+			for p, s := range secs {
+				res.AddStat("job_secrets_scanned", 1)
+				if bytes.Contains(genBytes, []byte(s)) {
+					res.Violate("C11/job-secret-leaked/"+secretKind(p), "job %s: secret %s (%s) appears in the generated file", oj.JobName, s, p)
+					witness()
+				}
+			}
 		}
-	}
-	// global, rules, alerting, remote write/read incl. secrets
-	for _, sec := range c11Sections {
-		a, b := sec.get(orig), sec.get(gen)
-		if yamlOf(a) != yamlOf(b) {
-			res.Violate("C11/section-changed/"+sec.name, "section %s differs:\n--- original\n%s--- generated\n%s", sec.name, yamlOf(a), yamlOf(b))
-			witness()
-		}
-		sa, sb := map[string]string{}, map[string]string{}
-		collectSecrets(reflect.ValueOf(a), sec.name, sa, 0)
-		collectSecrets(reflect.ValueOf(b), sec.name, sb, 0)
-		var paths []string
-		for p := range sa {
-			paths = append(paths, p)
-		}
-		for p := range sb {
-			if _, ok := sa[p]; !ok {
+		// global, rules, alerting, remote write/read incl. secrets
+		for _, sec := range c11Sections {
+			a, b := sec.get(orig), sec.get(gen)
+			if yamlOf(a) != yamlOf(b) {
+				res.Violate("C11/section-changed/"+sec.name, "section %s differs:\n--- original\n%s--- generated\n%s", sec.name, yamlOf(a), yamlOf(b))
+				witness()
+			}
+			sa, sb := map[string]string{}, map[string]string{}
+			collectSecrets(reflect.ValueOf(a), sec.name, sa, 0)
+			collectSecrets(reflect.ValueOf(b), sec.name, sb, 0)
+			var paths []string
+			for p := range sa {
 				paths = append(paths, p)
 			}
+			for p := range sb {
+				if _, ok := sa[p]; !ok {
+					paths = append(paths, p)
+				}
+			}
+			sort.Strings(paths)
+			for _, p := range paths {
+				res.AddStat("section_secrets_compared", 1)
+				if sa[p] != sb[p] {
+					res.Violate("C11/secret-not-preserved/"+sec.name+"/"+secretKind(p), "%s: original %q, generated file %q", p, sa[p], sb[p])
+					witness()
+				}
+			}
 		}
-		sort.Strings(paths)
-		for _, p := range paths {
-			res.AddStat("section_secrets_compared", 1)
-			if sa[p] != sb[p] {
-				res.Violate("C11/secret-not-preserved/"+sec.name+"/"+secretKind(p), "%s: original %q, generated file %q", p, sa[p], sb[p])
-				witness()
+	}
+	compare("first configuration + assignment", text, orig, genBytes, want)
+
+	// phase 2: a new configuration arrives while targets are assigned (a job added, the last job removed when
+	// there are several, a setting changed): the assignment of surviving jobs must still be in the file
+	if len(res.Viol) == 0 {
+		spec2 := clone(spec)
+		if len(spec2.Jobs) > 1 {
+			gone := spec2.Jobs[len(spec2.Jobs)-1].Name
+			spec2.Jobs = spec2.Jobs[:len(spec2.Jobs)-1]
+			delete(want, gone)
+		}
+		spec2.Jobs = append(spec2.Jobs, cfggen.GenJob(r, "late_job", false))
+		want["late_job"] = map[uint64]bool{}
+		spec2.Jobs[0].Interval, spec2.Jobs[0].Timeout = "41s", "7s"
+		text2 := cfggen.Render(spec2, cfggen.Style{Indent: 2})
+		if orig2, err := config.Load(text2, false, log.NewNopLogger()); err == nil {
+			if err := in.PushConfig(text2); err != nil {
+				res.Inconcl = "sidecar rejected the second configuration: " + err.Error()
+				return res
+			}
+			if gb, err := in.GeneratedConfig(); err == nil {
+				compare("after a second configuration", text2, orig2, gb, want)
+			}
+			// phase 3: the assignment changes under the second configuration
+			if len(res.Viol) == 0 {
+				a2 := map[string][]*target.Target{}
+				w2 := map[string]map[uint64]bool{}
+				for j := range want {
+					w2[j] = map[uint64]bool{}
+				}
+				for j, ts := range assign {
+					if _, ok := want[j]; !ok {
+						continue
+					}
+					for k, t := range ts {
+						if k%2 == 0 {
+							a2[j] = append(a2[j], t)
+							w2[j][t.Hash] = true
+						}
+					}
+				}
+				nt := &target.Target{Hash: 777777, Labels: []lblT{lbl("__address__", "10.7.7.7:9100"), lbl("__scheme__", "http"), lbl("__metrics_path__", "/metrics"), lbl("job", "late_job")}}
+				a2["late_job"] = append(a2["late_job"], nt)
+				w2["late_job"][nt.Hash] = true
+				if err := in.UpdateTargets(a2); err == nil {
+					if gb, err := in.GeneratedConfig(); err == nil {
+						compare("after a changed assignment", text2, orig2, gb, w2)
+					}
+				}
 			}
 		}
 	}
@@ -301,7 +358,7 @@ func init() {
 	core.Register(&core.Prop{
 		ID:    "C11",
 		Level: "exploration",
-		Rule: "differential against the vendored Prometheus loader: case = generated configuration (1-4 jobs, every auth kind: basic, bearer_token, authorization, tls (files or inline), oauth2; SD kinds static/file/kubernetes/dns/http; global, rule files, alerting with and without credentials, 0-2 remote_write and remote_read entries with bearer tokens / passwords / authorization, all secrets unique recognisable strings) + an assignment (jobs with 0/1/2/5 targets, optionally targets of a job that does not exist) + self-monitoring on/off, pushed through a real sidecar's API; " +
+		Rule: "differential against the vendored Prometheus loader: case = generated configuration (1-4 jobs, every auth kind: basic, bearer_token, authorization, tls (files or inline), oauth2; SD kinds static/file/kubernetes/dns/http; global, rule files, alerting with and without credentials, 0-2 remote_write and remote_read entries with bearer tokens / passwords / authorization, all secrets unique recognisable strings) + an assignment (jobs with 0/1/2/5 targets, optionally targets of a job that does not exist) + self-monitoring on/off, pushed through a real sidecar's API; then a second configuration (a job added, the last job removed, a setting changed) while targets are assigned, then a changed assignment under it - the file is re-checked after each phase; " +
 			"the generated file is loaded with config.Load and compared field-wise with the loaded original (jobs and order, static entries <-> assigned hashes, scheme/proxy/auth removal, kept settings, byte scan for job secrets, global/rules/alerting/remote sections via YAML rendering plus a reflective walk over every Secret value); " +
 			"non-trivial = every case the sidecar accepts; distinct = hash of the text, self-monitor flag and assignment size",
 		Assumptions: []string{"secrets use a YAML-plain alphabet (no quoting needed)", "sections are compared through yaml.Marshal of the loaded structs plus the reflective secret walk"},
